@@ -111,6 +111,9 @@ def showEdits (l : List HeaderEdit) : String :=
 /-- driver state: the last accepted request and its limits (for the `body` op), and the HSTS route state -/
 structure St where
   req : Option (Req × Limits) := none
+  /-- bytes of the stream buffer taken by the accepted header block, and its capacity -/
+  used : Nat := 0
+  cap : Nat := 0
   hsts : HState := {}
 
 /-- a stream event of the `recon` verb: `d<len>:<endStream 0|1>` or `t` (trailer HEADERS) -/
@@ -125,26 +128,22 @@ def parseStreamEv (s : String) : Option StreamEv :=
 def stepLine (st : St) (line : String) : St × List String :=
   match words line with
   | ["new"] => ({}, ["new"])
-  -- h2 <maxList> <maxFields> <endStream> <scheme> <ctx|-> <headers>
-  | ["h2", ml, mf, es, sch, cx, hs] =>
-    match ml.toNat?, mf.toNat?, parseBool es, hexToBytes sch, parseList parsePair hs with
-    | some ml, some mf, some es, some sch, some hl =>
+  -- h2 <maxList> <maxFields> <endStream> <scheme> <ctx|-> <headers> [<buffer size>]
+  | "h2" :: ml :: mf :: es :: sch :: cx :: hs :: bufw =>
+    match ml.toNat?, mf.toNat?, parseBool es, hexToBytes sch, parseList parsePair hs,
+          (match bufw with | [] => some 131072 | [b] => b.toNat? | _ => none) with
+    | some ml, some mf, some es, some sch, some hl, some cap =>
       let lim : Limits := { maxListSize := ml, maxFields := mf }
+      let full := storageScan lim cap hl {} 0
       let res :=
-        if cx = "-" then some (validateRequest lim es hl)
+        if full then some (.error Reason.storageFull)
+        else if cx = "-" then some (validateRequest lim es hl)
         else (parseCtx cx).map fun c => handleRequest lim c es hl
       match res with
       | none => (st, ["bad-op"])
       | some (.error r) => ({ st with req := none }, [s!"reject {clsStr r.cls} {repr r}"])
-      | some (.ok r) => ({ st with req := some (r, lim) }, [showReq sch r])
-    | _, _, _, _, _ => (st, ["bad-op"])
-  -- recon <declared length|~> <exempt> <events>: Content-Length vs DATA reconciliation of one request stream
-  | ["recon", d, ex, evs] =>
-    match (if d = "~" then some none else d.toNat?.map some), parseBool ex, parseList parseStreamEv evs with
-    | some declared, some ex, some evs =>
-      let r := rrun declared ex evs
-      (st, [s!"forwarded={r.forwarded} received={r.received} done={if r.done then 1 else 0} reset={if r.reset then 1 else 0}"])
-    | _, _, _ => (st, ["bad-op"])
+      | some (.ok r) => ({ st with req := some (r, lim), used := storageUsed lim hl {} 0, cap := cap }, [showReq sch r])
+    | _, _, _, _, _, _ => (st, ["bad-op"])
   -- trailer <maxList> <maxFields> <endStream> <headers>
   | ["trailer", ml, mf, es, hs] =>
     match ml.toNat?, mf.toNat?, parseBool es, parseList parsePair hs with
@@ -160,7 +159,7 @@ def stepLine (st : St) (line : String) : St × List String :=
       if tr = "~" then (st, [s!"ok {hx (wireBody r chunks none)}"])
       else match parseList parsePair tr with
         | some raw =>
-          match handleTrailer lim true raw with
+          match handleTrailerS lim st.cap st.used true raw with
           | .error e => (st, [s!"reject {clsStr e.cls} {repr e}"])
           | .ok t => (st, [s!"ok {hx (wireBody r chunks (some t))}"])
         | none => (st, ["bad-op"])
